@@ -1,12 +1,45 @@
-(* C09 - age criterion.  Statements only (placeholder until Time/Period.v is merged). *)
-Require Import FL.Base.Bytes FL.Time.Civil FL.Flw.Model FL.Oracles.O_Age.
+(* C09 - age criterion.  Statements only. *)
+Require Import FL.Base.Bytes FL.Time.Civil FL.Time.Period FL.Flw.Model FL.Oracles.O_Age.
 Open Scope Z_scope.
 
-(* the oracle never rotates inside a period and always rotates at the first write of a later one *)
+(* The decision the code takes - compare year, month, day (and hour, minute, second as configured) of the local
+   broken-down times of the instant the current file was started and of now - is, for every pair of instants and
+   every fixed zone offset, the comparison of the numbers of the day / hour / minute / second they lie in. *)
+Theorem C09_period :
+  forall w a created,
+    age_rotation_necessary w a created = negb (period_of a (created + woff w) =? period_of a (wnow w + woff w)).
+Proof. intros. unfold age_rotation_necessary, local_civil. rewrite same_period_spec. reflexivity. Qed.
+
+(* the calendar underneath: day number <-> civil date is a bijection, and broken-down time loses nothing *)
+Theorem C09_calendar_bijective : forall a b, civil_from_days a = civil_from_days b -> a = b.
+Proof. exact civil_from_days_inj. Qed.
+Theorem C09_civil_roundtrip : forall t, secs_of_civil (civil_of t) = t.
+Proof. exact secs_civil_roundtrip. Qed.
+
+(* the oracle (what the reader must find) never rotates inside a period and always rotates at the first write of a
+   later one; with age-or-size, exactly when either criterion is met *)
 Theorem C09_rotation_iff_later_period :
   forall a off start content t,
     rotate_due (Some a) None off start content t = negb (period_of a (start + off) =? period_of a (t + off)).
 Proof. intros. unfold rotate_due. rewrite Bool.orb_false_r. reflexivity. Qed.
+Theorem C09_age_or_size :
+  forall a m off start content t,
+    rotate_due (Some a) (Some m) off start content t
+    = negb (period_of a (start + off) =? period_of a (t + off)) || (m <? N.of_nat (length content))%N.
+Proof. intros. reflexivity. Qed.
 
-Check C09_rotation_iff_later_period.
-Print Assumptions C09_rotation_iff_later_period.
+(* the model's rotation decision is the oracle's, whenever the counted size is the size of the content *)
+Theorem C09_model_decision :
+  forall w a created max cur content,
+    cur = N.of_nat (length content) ->
+    rotation_necessary w (RAgeSize a created max cur) = rotate_due (Some a) (Some max) (woff w) created content (wnow w)
+    /\ rotation_necessary w (RAge a created) = rotate_due (Some a) None (woff w) created content (wnow w).
+Proof.
+  intros w a created max cur content ->. unfold rotation_necessary, rotate_due, size_rotation_necessary.
+  rewrite C09_period. split; [apply Bool.orb_comm | rewrite Bool.orb_false_r; reflexivity].
+Qed.
+
+Check C09_period. Check C09_rotation_iff_later_period. Check C09_model_decision.
+Print Assumptions C09_period.
+Print Assumptions C09_calendar_bijective.
+Print Assumptions C09_model_decision.
